@@ -35,6 +35,9 @@ def run_history(ops, want_corr=True):
     from cassandra.cqlengine import CQLEngineException, ValidationError
     Row = O.models()['Row']
     inst = None
+    ck = CK
+    used_ck = set([CK])
+    rekeyed = False
     exp = {}
     allst = []
     steps = []
@@ -48,7 +51,7 @@ def run_history(ops, want_corr=True):
             if 'st' not in o[1]:
                 o = [o[0], dict(o[1], st=None)]      # a static column survives a row delete: always (re)write it explicitly on create
             kw = dict((a, H.py_val(v)) for a, v in o[1].items())
-            inst = Row(k=K, c=CK, **kw)
+            inst = Row(k=K, c=ck, **kw)
             for a, v in o[1].items():
                 touched[a].append('create-none' if v is None else 'create-empty' if isinstance(v, list) and not v[1] else 'create')
             rec = 'save'
@@ -67,6 +70,14 @@ def run_history(ops, want_corr=True):
             a, how, x = o[1], o[2], o[3]
             if how == 'clear':
                 cur.clear()
+            elif how == 'grow':
+                if a == 'l' and cur:
+                    cur.insert(0, x + 10)           # the list grows at BOTH ends in one save
+                    cur.append(x + 20)
+                elif a == 's':
+                    cur.update([x, x + 1])
+                elif a != 'l':
+                    cur[x] = x + 2
             elif a == 's':
                 cur.add(x) if how == 'add' else cur.discard(x)
             elif a == 'l':
@@ -80,6 +91,18 @@ def run_history(ops, want_corr=True):
                 else:
                     cur.pop(x, None)
             touched[a].append('mut-' + how)
+        elif k == 'rekey':
+            if not inst._is_persisted:
+                continue
+            used_ck.add(ck)
+            newck = o[1] if o[1] not in used_ck else max(used_ck) + 1      # always a row that does not exist yet
+            inst.c = newck                          # reassign the clustering key of a persisted instance: save() must INSERT a full row
+            ck = newck
+            used_ck.add(ck)
+            rekeyed = True
+            exp = {'st': exp.get('st')}             # the row under the new key does not exist yet (static column is per partition)
+            for a in O.ATTR_COL:
+                touched[a].append('rekey')
         elif k in ('save', 'batch_save'):
             rec = k
         elif k == 'update':
@@ -94,7 +117,7 @@ def run_history(ops, want_corr=True):
             em = [a for t, p in r.calls for a in O.to_ast(t, p)]
             allst += em
             exp = {'st': exp.get('st')}
-            steps.append({'i': i, 'kind': 'delete', 'emitted': em, 'all': list(allst), 'exp': O.row_literal(exp), 'pre': pre, 'post': None,
+            steps.append({'ck': ck, 'i': i, 'kind': 'delete', 'emitted': em, 'all': list(allst), 'exp': O.row_literal(exp), 'pre': pre, 'post': None,
                           'persisted': True, 'touched': copy.deepcopy(touched), 'text': [t for t, _ in r.calls]})
             inst = None
             touched = dict((a, []) for a in O.ATTR_COL)
@@ -105,18 +128,18 @@ def run_history(ops, want_corr=True):
                 kwargs[kwname(a, op)] = H.py_val(v)
             try:
                 with H.Recorder() as r:
-                    Row.objects(k=K, c=CK).update(**kwargs)
+                    Row.objects(k=K, c=ck).update(**kwargs)
             except (ValidationError, CQLEngineException):
                 continue
             for a, op, v in o[1]:
                 O.doc_update(exp, a, op, v)
             em = [a for t, p in r.calls for a in O.to_ast(t, p)]
             allst += em
-            steps.append({'i': i, 'kind': 'qs_update', 'emitted': em, 'all': list(allst), 'exp': O.row_literal(exp), 'pre': None, 'post': None,
+            steps.append({'ck': ck, 'i': i, 'kind': 'qs_update', 'emitted': em, 'all': list(allst), 'exp': O.row_literal(exp), 'pre': None, 'post': None,
                           'persisted': True, 'touched': dict((a, [(op or 'assign') + ('-none' if v is None else '-empty' if isinstance(v, list) and not v[1] else '')])
                                                              for a, op, v in o[1]), 'text': [t for t, _ in r.calls]})
             # the instance is stale now: read it back
-            vals = {'k': K, 'c': CK}
+            vals = {'k': K, 'c': ck}
             for a in O.ATTR_COL:
                 vals['y' if a == 'yy' else a] = copy.deepcopy(exp.get(a))
             inst = Row._construct_instance(vals)
@@ -124,6 +147,9 @@ def run_history(ops, want_corr=True):
             continue
         if rec is None:
             continue
+        if rekeyed and rec == 'update':
+            rec = 'save'       # update() is documented to write modified fields only; after a key reassignment only save() promises a full row
+        rekeyed = False
         inst.validate()
         pre = O.capture(inst)
         persisted = bool(inst._is_persisted)
@@ -148,7 +174,7 @@ def run_history(ops, want_corr=True):
                 if a not in o[1] and not new[a]:
                     new[a] = old_exp.get(a)
         exp = new
-        steps.append({'i': i, 'kind': 'create' if k == 'create' else rec, 'emitted': em, 'all': list(allst), 'exp': O.row_literal(exp), 'pre': pre, 'old_exp': old_exp,
+        steps.append({'ck': ck, 'i': i, 'kind': 'create' if k == 'create' else rec, 'emitted': em, 'all': list(allst), 'exp': O.row_literal(exp), 'pre': pre, 'old_exp': old_exp,
                       'post': post, 'persisted': persisted, 'touched': copy.deepcopy(touched), 'text': [t for t, _ in r.calls]})
         touched = dict((a, []) for a in O.ATTR_COL)
     return steps
@@ -207,7 +233,7 @@ def run(ctx):
         for fn in sorted(os.listdir(CORPUS)):
             with open(os.path.join(CORPUS, fn)) as f:
                 hists.append(json.load(f)['history'])
-    for _ in range(70 if quick else 500):
+    for _ in range(70 if quick else 1500):
         hists.append(O.gen_history(rng))
     prop_cases, prop_meta, corr_cases, corr_meta = [], [], [], []
     for hi, ops in enumerate(hists):
@@ -224,7 +250,7 @@ def run(ctx):
         for s in steps:
             ctx.count('persisting_op', s['kind'])
             prop_cases.append('row_eqb (read_row sc_row (exec_all sc_row [] %s) %d (Some %d) %s) %s'
-                              % (lst(s['all']), K, CK, H.zl(O.ROW_COLS), s['exp']))
+                              % (lst(s['all']), K, s['ck'], H.zl(O.ROW_COLS), s['exp']))
             prop_meta.append((ops, s))
             if s['pre'] is not None:
                 if s['kind'] == 'delete':
@@ -280,7 +306,7 @@ def run(ctx):
         ops, s = prop_meta[i]
         for a, f in O.ATTR_COL.items():
             col_cases.append('row_eqb (read_row sc_row (exec_all sc_row [] %s) %d (Some %d) [%d]) (filter (fun kv => fst kv =? %d) %s)'
-                             % (lst(s['all']), K, CK, f, f, s['exp']))
+                             % (lst(s['all']), K, s['ck'], f, f, s['exp']))
             col_meta.append((ops, s, a))
     if col_cases:
         badc = ctx.coq_filter(['Clauses', 'CqlSem', 'Mapper'], '(fun b : bool => b)', col_cases, shard=150, prelude=PRELUDE)
@@ -290,7 +316,7 @@ def run(ctx):
             cause = '>'.join(s['touched'].get(a, [])) or 'untouched'
             if s.get('pre') and s.get('old_exp') is not None:
                 pc = [c for c in s['pre'] if c['f'] == O.ATTR_COL[a]][0]
-                if pc['val'] is not None and pc['val'] == pc['prev'] and not s['old_exp'].get(a):
+                if pc['val'] is not None and pc['val'] == pc['prev'] and not s['old_exp'].get(a) and 'rekey' not in s['touched'].get(a, []):
                     # the value manager still remembers, as previous_value, a value the row no longer stores (column deleted earlier)
                     a, cause = 'column', 'stale-previous-after-delete'
             who = {'qs_update': 'ModelQuerySet.update', 'create': 'Model.save(new)', 'save': 'Model.save', 'update': 'Model.update',
@@ -328,8 +354,8 @@ def replay(ctx, rp):
             print('step %d %s emitted %r expected row %s' % (s['i'], s['kind'], s['text'], s['exp']))
         s = steps[-1]
         res = ctx.coq_filter(['Clauses', 'CqlSem', 'Mapper'], '(fun b : bool => b)',
-                             ['row_eqb (read_row sc_row (exec_all sc_row [] %s) %d (Some %d) %s) %s' % (lst(s['all']), K, CK, H.zl(O.ROW_COLS), s['exp'])], prelude=PRELUDE)
-        got = ctx.coq_eval(['Clauses', 'CqlSem', 'Mapper'], ['read_row sc_row (exec_all sc_row [] %s) %d (Some %d) %s' % (lst(s['all']), K, CK, H.zl(O.ROW_COLS))], prelude=PRELUDE)
+                             ['row_eqb (read_row sc_row (exec_all sc_row [] %s) %d (Some %d) %s) %s' % (lst(s['all']), K, s['ck'], H.zl(O.ROW_COLS), s['exp'])], prelude=PRELUDE)
+        got = ctx.coq_eval(['Clauses', 'CqlSem', 'Mapper'], ['read_row sc_row (exec_all sc_row [] %s) %d (Some %d) %s' % (lst(s['all']), K, s['ck'], H.zl(O.ROW_COLS))], prelude=PRELUDE)
         print('row read back by CqlSem: %s' % got[0])
         print(('VIOLATION property=C35 replay=%s' % ctx.replay_path) if res else 'not reproduced')
         return 1 if res else 0
